@@ -34,21 +34,16 @@ static void verif_case(unsigned mask, unsigned descending)
 	unsigned j = verif_case_probe;
 	char *k = tr_ukeys[j];
 	void *oldv = TD[j];
+	COVER(oldv != NULL);
+	COVER(oldv == NULL);
 #if defined(V_GET)
 	void *r = trie_get(&t->map, k);
-	COVER(oldv != NULL && tr_popcount(mask) == TR_MAXSET);
-	#ifndef TR_HIGH
-	COVER(oldv == NULL && tr_spec_find(t, k) != NULL);
-#endif
-	COVER(oldv == NULL && tr_spec_find(t, k) == NULL && tr_popcount(mask) == TR_MAXSET);
 	POST(r == oldv, "get returns the value of the latest put for that key, or nothing");
 	POST(trie_count_get(&t->map) == tr_popcount(mask), "the count call reports the number of keys present");
 	POST(verif_not_total == 0, "get calls no notifier");
 #elif defined(V_PUT)
 	void *v = &tr_newcell;
 	trie_put(&t->map, k, v);
-	COVER(oldv != NULL);
-	COVER(oldv == NULL);
 	TD[j] = v;
 	if (oldv != NULL) {
 		tr_check_notified(QB_MAP_NOTIFY_REPLACED, k, oldv, v);
@@ -57,12 +52,6 @@ static void verif_case(unsigned mask, unsigned descending)
 	}
 #else
 	int32_t r = trie_rm(&t->map, k);
-	COVER(oldv != NULL && tr_popcount(mask) == TR_MAXSET);
-	COVER(oldv != NULL && tr_popcount(mask) == 1);
-	#ifndef TR_HIGH
-	COVER(oldv == NULL && tr_spec_find(t, k) != NULL);
-#endif
-	COVER(oldv == NULL && tr_popcount(mask) == 0);
 	POST((r != QB_FALSE) == (oldv != NULL), "remove reports success exactly when the key was present");
 	TD[j] = NULL;
 	if (oldv != NULL) {
